@@ -40,4 +40,8 @@ struct Geometry { int cylinders; int heads; sector_count_type sectors; };
 
 /* opus_cat.h: struct OpusDiscCatalogue::VolumeLocation { int catalog_location_; unsigned long start_sector_, len_; char volume_; } */
 struct VolumeLocation { int catalog_location_; unsigned long start_sector_; unsigned long len_; char volume_; };
+
+/* track.h: struct SectorAddress { unsigned char cylinder, head, record; }; struct Sector { SectorAddress address; std::vector<unsigned char> data; ... } */
+struct SectorAddress { unsigned char cylinder, head, record; };
+struct TrackSector { struct SectorAddress address; size_t data_n; };      /* data_n = data.size() */
 #endif
